@@ -751,7 +751,7 @@ PARTS = {
                 oracles={"rle_enc": o_rle_enc_C03, "dict_enc": o_dict_enc_C03, "dict_with": o_dict_with_C03},
                 classify=classify, search=search, assumptions=ASSUME, trusted_base=TRUST,
                 configs_quick=["pinned", "O0"]),
-    "C13": dict(coq_props=["Properties_C13_rledict"], files=FILES,
+    "C13": dict(coq_props=["Properties_C13_rledict", "Properties_C13_rle_src"], files=FILES,
                 rule="valid encodings of the C02 arrays x capacities 0..count (all capacities for short arrays; 0, 1, "
                      "run boundaries +-1, count-1, count for long ones), output array of exactly cap elements inside "
                      "canaries; hostile run streams with lengths near 2^64 for varintRLEDecode; non-trivial = count >= 1",
